@@ -12,112 +12,127 @@ open CprocVerif.LowerArith CprocVerif.LowerMach CprocVerif.LowerMem
 
 /-! ## What well-formedness gives -/
 
-theorem wt_noDead (vtys : List CSem.Ty) (ret : CSem.Ty) (st : Stmt) : ∀ (lp : Bool) (nd nd' : Nat),
-    Stmt.wt vtys ret lp nd st = some nd' → noDead st = true ∧ nd' = nd + (declTys st).length := by
+theorem wt_noDead (vtys : List CSem.Ty) (ret : CSem.Ty) (st : Stmt) : ∀ (lb lc : Bool) (nd nd' : Nat),
+    Stmt.wt vtys ret lb lc nd st = some nd' → noDead st = true ∧ nd' = nd + (declTys st).length := by
   induction st with
-  | skip => intro lp nd nd' h; simp only [Stmt.wt, Option.some.injEq] at h; simp [noDead, declTys, h]
+  | skip => intro lb lc nd nd' h; simp only [Stmt.wt, Option.some.injEq] at h; simp [noDead, declTys, h]
   | decl i t init =>
-    intro lp nd nd' h
+    intro lb lc nd nd' h
     simp only [Stmt.wt] at h
     split at h
     · cases h; simp [noDead, declTys]
     · cases h
   | assign i t e =>
-    intro lp nd nd' h
+    intro lb lc nd nd' h
     simp only [Stmt.wt] at h
     split at h
     · cases h; simp [noDead, declTys]
     · cases h
   | incdec i t inc =>
-    intro lp nd nd' h
+    intro lb lc nd nd' h
     simp only [Stmt.wt] at h
     split at h
     · cases h; simp [noDead, declTys]
     · cases h
   | expr e =>
-    intro lp nd nd' h
+    intro lb lc nd nd' h
     simp only [Stmt.wt] at h
     split at h
     · cases h; simp [noDead, declTys]
     · cases h
   | ret e =>
-    intro lp nd nd' h
+    intro lb lc nd nd' h
     simp only [Stmt.wt] at h
     split at h
     · cases h; simp [noDead, declTys]
     · cases h
   | seq a b iha ihb =>
-    intro lp nd nd' h
+    intro lb lc nd nd' h
     simp only [Stmt.wt] at h
     split at h
     · cases h
     · rename_i hej
       simp only [Option.bind_eq_some_iff] at h
       obtain ⟨n1, h1, h2⟩ := h
-      obtain ⟨ha1, ha2⟩ := iha lp nd n1 h1
-      obtain ⟨hb1, hb2⟩ := ihb lp n1 nd' h2
-      refine ⟨by simp [noDead, ha1, hb1, hej], ?_⟩
+      obtain ⟨ha1, ha2⟩ := iha lb lc nd n1 h1
+      obtain ⟨hb1, hb2⟩ := ihb lb lc n1 nd' h2
+      have hdis : a.endsJump = false ∨ b.startsLabel = true := by
+        cases ha : a.endsJump <;> cases hb : b.startsLabel <;> simp [ha, hb] at hej ⊢
+      refine ⟨by simp [noDead, ha1, hb1, hdis], ?_⟩
       simp only [declTys, List.length_append]; omega
   | ite e a iha =>
-    intro lp nd nd' h
+    intro lb lc nd nd' h
     simp only [Stmt.wt] at h
     split at h
-    · obtain ⟨ha1, ha2⟩ := iha lp nd nd' h
+    · obtain ⟨ha1, ha2⟩ := iha lb lc nd nd' h
       exact ⟨by simpa [noDead] using ha1, by simpa [declTys] using ha2⟩
     · cases h
   | itee e a b iha ihb =>
-    intro lp nd nd' h
+    intro lb lc nd nd' h
     simp only [Stmt.wt] at h
     split at h
     · simp only [Option.bind_eq_some_iff] at h
       obtain ⟨n1, h1, h2⟩ := h
-      obtain ⟨ha1, ha2⟩ := iha lp nd n1 h1
-      obtain ⟨hb1, hb2⟩ := ihb lp n1 nd' h2
+      obtain ⟨ha1, ha2⟩ := iha lb lc nd n1 h1
+      obtain ⟨hb1, hb2⟩ := ihb lb lc n1 nd' h2
       refine ⟨by simp [noDead, ha1, hb1], ?_⟩
       simp only [declTys, List.length_append]; omega
     · cases h
   | while_ e b ihb =>
-    intro lp nd nd' h
+    intro lb lc nd nd' h
     simp only [Stmt.wt] at h
     split at h
-    · obtain ⟨hb1, hb2⟩ := ihb true nd nd' h
+    · obtain ⟨hb1, hb2⟩ := ihb true true nd nd' h
       exact ⟨by simpa [noDead] using hb1, by simpa [declTys] using hb2⟩
     · cases h
   | dowhile b e ihb =>
-    intro lp nd nd' h
-    simp only [Stmt.wt, Option.bind_eq_some_iff] at h
-    obtain ⟨n1, h1, h2⟩ := h
-    split at h2
-    · cases h2
-      obtain ⟨hb1, hb2⟩ := ihb true nd _ h1
-      exact ⟨by simpa [noDead] using hb1, by simpa [declTys] using hb2⟩
-    · cases h2
+    intro lb lc nd nd' h
+    simp only [Stmt.wt] at h
+    split at h
+    · simp only [Option.bind_eq_some_iff] at h
+      obtain ⟨n1, h1, h2⟩ := h
+      split at h2
+      · cases h2
+        obtain ⟨hb1, hb2⟩ := ihb true true nd _ h1
+        exact ⟨by simpa [noDead] using hb1, by simpa [declTys] using hb2⟩
+      · cases h2
+    · cases h
   | for_ e step b ihs ihb =>
-    intro lp nd nd' h
+    intro lb lc nd nd' h
     simp only [Stmt.wt] at h
     split at h
     · rename_i hc
       simp only [Option.bind_eq_some_iff, Option.some.injEq] at h
       obtain ⟨n1, h1, n2, h2, rfl⟩ := h
-      obtain ⟨hb1, hb2⟩ := ihb true nd n1 h1
-      obtain ⟨hs1, hs2⟩ := ihs false nd n2 h2
+      obtain ⟨hb1, hb2⟩ := ihb true true nd n1 h1
+      obtain ⟨hs1, hs2⟩ := ihs false false nd n2 h2
       have hsd : declTys step = [] := by
         cases step <;> simp [Stmt.isSimple] at hc <;> rfl
-      refine ⟨by simp [noDead, hb1, hc.2], ?_⟩
+      refine ⟨by simp [noDead, hb1, hc.2.1], ?_⟩
       simp only [declTys, List.length_append, hsd, List.length_nil]; omega
     · cases h
   | break_ =>
-    intro lp nd nd' h
+    intro lb lc nd nd' h
     simp only [Stmt.wt] at h
     split at h
     · cases h; simp [noDead, declTys]
     · cases h
   | continue_ =>
-    intro lp nd nd' h
+    intro lb lc nd nd' h
     simp only [Stmt.wt] at h
     split at h
     · cases h; simp [noDead, declTys]
     · cases h
+  | switch_ e b ihb =>
+    intro lb lc nd nd' h
+    simp only [Stmt.wt] at h
+    split at h
+    · rename_i hc
+      obtain ⟨hb1, hb2⟩ := ihb true lc nd nd' h
+      exact ⟨by simp [noDead, hb1, hc.2.2.1], by simpa [declTys] using hb2⟩
+    · cases h
+  | case_ u => intro lb lc nd nd' h; simp only [Stmt.wt, Option.some.injEq] at h; simp [noDead, declTys, h]
+  | default_ => intro lb lc nd nd' h; simp only [Stmt.wt, Option.some.injEq] at h; simp [noDead, declTys, h]
 
 /-! ## The simulation statement -/
 
@@ -130,24 +145,26 @@ def frag : Stmt → Bool
   | .while_ _ b => frag b
   | .dowhile b _ => frag b
   | .for_ _ st b => frag st && frag b
+  | .case_ _ | .default_ => true
+  | .switch_ _ _ => false
 
 /-- Executions of at most `fuel` are simulated (see `Post`). -/
 def SimStmt (T : Stat) (fuel : Nat) : Prop :=
-  ∀ (st : Stmt) (s : Store) (out : CSem2.Outcome) (lp : Bool) (brk cont : String) (c : SCtx)
+  ∀ (st : Stmt) (s : Store) (out : CSem2.Outcome) (lp : Bool × Bool) (brk cont : String) (c : SCtx)
     (nd nd' : Nat) (pre post : List Item) (env : Env) (M : Mem),
     exec T.S.cs fuel s st = some out →
     frag st = true →
-    Stmt.wt T.vtys T.ret lp nd st = some nd' →
+    Stmt.wt T.vtys T.ret lp.1 lp.2 nd st = some nd' →
     Pos T c nd pre →
     Ext T (funcstmt T.S.cs brk cont st c).ctx →
     T.S.its = pre ++ (funcstmt T.S.cs brk cont st c).items ++ post →
-    (lp = true → CanJump T.S brk ∧ CanJump T.S cont) →
+    ((lp.1 = true → CanJump T.S brk) ∧ (lp.2 = true → CanJump T.S cont)) →
     SInv T.S.cs T.σ T.vtys s env M →
     Post T lp brk cont (T.at env M pre) (pre ++ (funcstmt T.S.cs brk cont st c).items)
       (funcstmt T.S.cs brk cont st c).ctx out
 
 section Leaves
-variable (T : Stat) {s : Store} {out : CSem2.Outcome} {lp : Bool} {brk cont : String} {c : SCtx}
+variable (T : Stat) {s : Store} {out : CSem2.Outcome} {lp : Bool × Bool} {brk cont : String} {c : SCtx}
   {nd nd' : Nat} {pre post : List Item} {env : Env} {M : Mem}
 
 theorem sim_skip (n : Nat) (hex : exec T.S.cs (n + 1) s .skip = some out) (hp : Pos T c nd pre)
@@ -160,39 +177,61 @@ theorem sim_skip (n : Nat) (hex : exec T.S.cs (n + 1) s .skip = some out) (hp : 
   exact ⟨hp.jump, 0, env, M, rfl, inv⟩
 
 theorem sim_break (n : Nat) (hex : exec T.S.cs (n + 1) s .break_ = some out)
-    (hwt : Stmt.wt T.vtys T.ret lp nd .break_ = some nd') (hp : Pos T c nd pre)
+    (hwt : Stmt.wt T.vtys T.ret lp.1 lp.2 nd .break_ = some nd') (hp : Pos T c nd pre)
     (inv : SInv T.S.cs T.σ T.vtys s env M) :
     Post T lp brk cont (T.at env M pre) (pre ++ (funcstmt T.S.cs brk cont .break_ c).items)
       (funcstmt T.S.cs brk cont .break_ c).ctx out := by
   simp only [exec, Option.some.injEq] at hex
   subst hex
   simp only [Stmt.wt] at hwt
-  have hlp : lp = true := by
-    cases lp
-    · simp at hwt
+  have hlp : lp.1 = true := by
+    cases h : lp.1
+    · simp [h] at hwt
     · rfl
   simp only [funcstmt, List.append_nil]
   refine ⟨hlp, 0, env, M, inv, Or.inl ⟨?_, rfl⟩⟩
   simp only [setJump_jump, hp.jump, Option.getD_none]
 
 theorem sim_continue (n : Nat) (hex : exec T.S.cs (n + 1) s .continue_ = some out)
-    (hwt : Stmt.wt T.vtys T.ret lp nd .continue_ = some nd') (hp : Pos T c nd pre)
+    (hwt : Stmt.wt T.vtys T.ret lp.1 lp.2 nd .continue_ = some nd') (hp : Pos T c nd pre)
     (inv : SInv T.S.cs T.σ T.vtys s env M) :
     Post T lp brk cont (T.at env M pre) (pre ++ (funcstmt T.S.cs brk cont .continue_ c).items)
       (funcstmt T.S.cs brk cont .continue_ c).ctx out := by
   simp only [exec, Option.some.injEq] at hex
   subst hex
   simp only [Stmt.wt] at hwt
-  have hlp : lp = true := by
-    cases lp
-    · simp at hwt
+  have hlp : lp.2 = true := by
+    cases h : lp.2
+    · simp [h] at hwt
     · rfl
   simp only [funcstmt, List.append_nil]
   refine ⟨hlp, 0, env, M, inv, Or.inl ⟨?_, rfl⟩⟩
   simp only [setJump_jump, hp.jump, Option.getD_none]
 
+/-- `case u:` / `default:` reached by falling through from the statement before: the label closes the
+    block (no jump is pending there) and execution continues in the new one -/
+theorem sim_label (n : Nat) (st : Stmt) (hst : (∃ u, st = .case_ u) ∨ st = .default_)
+    (hex : exec T.S.cs (n + 1) s st = some out) (hp : Pos T c nd pre)
+    (hits : T.S.its = pre ++ (funcstmt T.S.cs brk cont st c).items ++ post)
+    (inv : SInv T.S.cs T.σ T.vtys s env M) :
+    Post T lp brk cont (T.at env M pre) (pre ++ (funcstmt T.S.cs brk cont st c).items)
+      (funcstmt T.S.cs brk cont st c).ctx out := by
+  rcases hst with ⟨u, rfl⟩ | rfl
+  · simp only [exec, Option.some.injEq] at hex
+    subst hex
+    simp only [funcstmt, labelItem, hp.jump] at hits ⊢
+    have hits' : T.S.its = pre ++ .lbl none (lblName "switch_case" (c.blockid + 1)) [] :: post := by
+      rw [hits]; simp
+    exact ⟨rfl, 1, env, M, Reach.one (step_fall_item T hits' env M), inv⟩
+  · simp only [exec, Option.some.injEq] at hex
+    subst hex
+    simp only [funcstmt, labelItem, hp.jump] at hits ⊢
+    have hits' : T.S.its = pre ++ .lbl none (lblName "switch_default" (c.blockid + 1)) [] :: post := by
+      rw [hits]; simp
+    exact ⟨rfl, 1, env, M, Reach.one (step_fall_item T hits' env M), inv⟩
+
 theorem sim_exprstmt (n : Nat) (e : Expr) (hex : exec T.S.cs (n + 1) s (.expr e) = some out)
-    (hwt : Stmt.wt T.vtys T.ret lp nd (.expr e) = some nd') (hp : Pos T c nd pre)
+    (hwt : Stmt.wt T.vtys T.ret lp.1 lp.2 nd (.expr e) = some nd') (hp : Pos T c nd pre)
     (hext : Ext T (funcstmt T.S.cs brk cont (.expr e) c).ctx)
     (hits : T.S.its = pre ++ (funcstmt T.S.cs brk cont (.expr e) c).items ++ post)
     (inv : SInv T.S.cs T.σ T.vtys s env M) :
@@ -209,7 +248,7 @@ theorem sim_exprstmt (n : Nat) (e : Expr) (hex : exec T.S.cs (n + 1) s (.expr e)
   · cases hwt
 
 theorem sim_ret (n : Nat) (e : Expr) (hex : exec T.S.cs (n + 1) s (.ret e) = some out)
-    (hwt : Stmt.wt T.vtys T.ret lp nd (.ret e) = some nd') (hp : Pos T c nd pre)
+    (hwt : Stmt.wt T.vtys T.ret lp.1 lp.2 nd (.ret e) = some nd') (hp : Pos T c nd pre)
     (hext : Ext T (funcstmt T.S.cs brk cont (.ret e) c).ctx)
     (hits : T.S.its = pre ++ (funcstmt T.S.cs brk cont (.ret e) c).items ++ post)
     (inv : SInv T.S.cs T.σ T.vtys s env M) :
@@ -252,7 +291,7 @@ theorem sim_store (k : Nat) (t : CSem.Ty) (val : Val) (slot : Nat) {pos : List I
 
 theorem sim_assign (n : Nat) (i : Nat) (t : CSem.Ty) (e : Expr)
     (hex : exec T.S.cs (n + 1) s (.assign i t e) = some out)
-    (hwt : Stmt.wt T.vtys T.ret lp nd (.assign i t e) = some nd') (hp : Pos T c nd pre)
+    (hwt : Stmt.wt T.vtys T.ret lp.1 lp.2 nd (.assign i t e) = some nd') (hp : Pos T c nd pre)
     (hext : Ext T (funcstmt T.S.cs brk cont (.assign i t e) c).ctx)
     (hits : T.S.its = pre ++ (funcstmt T.S.cs brk cont (.assign i t e) c).items ++ post)
     (inv : SInv T.S.cs T.σ T.vtys s env M) :
@@ -284,7 +323,7 @@ theorem sim_assign (n : Nat) (i : Nat) (t : CSem.Ty) (e : Expr)
 
 theorem sim_decl_init (n : Nat) (i : Nat) (t : CSem.Ty) (e : Expr)
     (hex : exec T.S.cs (n + 1) s (.decl i t (some e)) = some out)
-    (hwt : Stmt.wt T.vtys T.ret lp nd (.decl i t (some e)) = some nd') (hp : Pos T c nd pre)
+    (hwt : Stmt.wt T.vtys T.ret lp.1 lp.2 nd (.decl i t (some e)) = some nd') (hp : Pos T c nd pre)
     (hext : Ext T (funcstmt T.S.cs brk cont (.decl i t (some e)) c).ctx)
     (hits : T.S.its = pre ++ (funcstmt T.S.cs brk cont (.decl i t (some e)) c).items ++ post)
     (inv : SInv T.S.cs T.σ T.vtys s env M) :
